@@ -1,7 +1,7 @@
 (* Props/C01.v — property C01: garbled evaluation equals plain evaluation.
    Only statements closed by [exact], each followed by Print Assumptions. *)
 From Coq Require Import NArith ZArith List Bool.
-From Mpc Require Import Gen.Consts Base.Label Circuit.Circuit Circuit.Garble Circuit.GarbleProof Circuit.RunC01.
+From Mpc Require Import Gen.Consts Base.Label Base.Aes Circuit.Circuit Circuit.Garble Circuit.GarbleProof Circuit.RunC01.
 Import ListNotations.
 
 (* For every block function pi (hence every AES key of every length), every
@@ -42,3 +42,16 @@ Theorem C01_op_enum :
   = [XOR; XNOR; AND; OR; INV].
 Proof. exact op_enum_ok. Qed.
 Print Assumptions C01_op_enum.
+
+(* The well-formedness hypothesis "no gate writes an input wire" is necessary
+   and is NOT enforced by the circuit-file parsers: a parser-accepted circuit
+   that overwrites input wire 0 has a defined plain evaluation, but its garbled
+   evaluation ends with a label that is neither label of the output wire
+   (known finding F35; exhibited on the implementation by the harness). *)
+Theorem C01_input_overwrite_refuted :
+  wf_parser overwrite_circuit = true /\ wf overwrite_circuit = false /\
+  eval_plain overwrite_circuit [true; true] = [false] /\
+  decoded_outputs (aes_pi (aes_schedule (be_bytes 16 7))) (fun i => N.of_nat (1000 + 37 * i))
+                  overwrite_circuit [true; true] = Some [None].
+Proof. exact input_overwrite_refuted. Qed.
+Print Assumptions C01_input_overwrite_refuted.
